@@ -55,7 +55,9 @@ def strategy(tier):
       (4, st.tuples(st.just('advance'), st.sampled_from([1, 5, 10, 25, 25, 60, 150])).map(list)),
   ]
   kill = st.one_of(st.none(), st.none(), st.tuples(st.integers(0, 60), st.integers(0, 8), st.booleans()).map(list))
-  return st.fixed_dictionaries({'config': cfg, 'ops': sized_list(weighted(*pairs), 0, 60 if tier == 'quick' else 160), 'kill': kill})
+  return st.fixed_dictionaries({'config': cfg, 'ops': sized_list(weighted(*pairs), 0, 60 if tier == 'quick' else 160), 'kill': kill,
+                                # whether the owner's Close() (before the pool is opened again) comes while requests are in flight
+                                'close_with_lent': st.booleans()})
 
 
 class Conn(ClientMessageSink):
@@ -193,7 +195,11 @@ class Run(object):
     self.step = -1
     self.cur_op = None
     self.pool_closed_expected = False
-    self.expired_while_queued = 0
+    self.dead_in_queue = []       # ids of requests that expired while queued and may still sit in the pool's queue
+
+  @property
+  def expired_while_queued(self):
+    return len(self.dead_in_queue)
 
   def fail(self, key, detail):
     v = Violation(ID, key, '%s (step %d: %r)' % (detail, self.step, self.cur_op))
@@ -313,6 +319,14 @@ class Run(object):
         w.expect_closed_error = True
     if self.expired_while_queued:
       self.flags.add('release_after_expiry_in_queue')
+      if not r.conn.killed and self.pool.state != ChannelState.Closed:
+        # the released connection goes to the first waiter still alive: the expired entries ahead of that waiter
+        # (all of them, if nobody alive is waiting) have been passed over and no longer take up room in the queue
+        live = [w.id for w in waiters]
+        first = min(live) if live else None
+        self.dead_in_queue = [d for d in self.dead_in_queue if first is not None and d > first]
+        if not self.dead_in_queue:
+          self.flags.add('release_cleared_expired_entries')
     m = MethodReturnMessage('ok') if kind == 'reply' else MethodReturnMessage(error=Exception('server error'))
     r.stack.AsyncProcessResponseMessage(m)
 
@@ -350,7 +364,7 @@ class Run(object):
     for r in self.reqs:
       if r.expired() and r.queued and r.conn is None and not getattr(r, 'counted', False):
         r.counted = True
-        self.expired_while_queued += 1
+        self.dead_in_queue.append(r.id)
         self.flags.add('expired_while_queued')
 
   def invariants(self):
@@ -436,6 +450,11 @@ class Run(object):
               r.id, [type(m.error).__name__ for _, m in r.completions]))
       if waiting:
         self.flags.add('waiter_failed_by_owner_close')
+      if self.plan.get('close_with_lent'):
+        # ... and the owner opens the same pool again
+        if self.lent():
+          self.flags.add('closed_with_requests_in_flight')
+        self.second_life('a dead connection closed the pool, Close() and Open()')
       return
     live = self.live_conns()
     if len(live) > self.cfg['min']:
@@ -453,8 +472,17 @@ class Run(object):
       self.fail('capacity-leaked', 'after all traffic drained, a burst of %d requests left %r without a connection (%d connections in existence)' % (
           self.cfg['max'], stuck, len(self.live_conns())))
     # second life: the owner closes the pool and opens it again (a resurrector or balancer that is re-opened does);
-    # the full capacity must be there again
+    # the full capacity must be there again, and no more than that
     self.cur_op = ['reopen']
+    if not self.plan.get('close_with_lent'):
+      self.drain()
+    elif self.lent():
+      self.flags.add('closed_with_requests_in_flight')
+    self.pool.Close()
+    settle()
+    self.second_life('Close() and Open()')
+
+  def drain(self):
     for _ in range(50):       # a released connection may go straight to a request that was still queued: answer those too
       l = self.lent()
       if not l:
@@ -463,14 +491,30 @@ class Run(object):
         self.answer(r, 'reply')
       settle()
       advance(0.01)
-    self.pool.Close()
-    settle()
+
+  def second_life(self, what):
+    # requests that were in flight when the pool was closed complete now
+    self.drain()
+    # requests failed by Close() while queued are like requests that expired there: their entries may still take up
+    # room in the queue until a release passes over them
+    for r in self.reqs:
+      if r.conn is None and r.completions and isinstance(r.completions[0][1].error, ServiceClosedError) and r.id not in self.dead_in_queue \
+          and not getattr(r, 'counted', False):
+        r.counted = True
+        self.dead_in_queue.append(r.id)
+    for c in self.provider.conns:
+      if c.killed and c.closed_at is None:
+        c.closed_at = loop.now()      # a connection that died is not a connection in existence, whether or not the pool called Close() on it
+    for r in self.reqs:
+      if not r.completions and r.conn is None:
+        r.excused = True      # what happens to waiters at Close() is checked where the Close() is
     ar = self.pool.Open()
     advance(0.2)
     self.raise_pending()
     if not ar.ready() or ar.exception:
-      self.fail('reopen-failed', 'pool Open() after Close() did not succeed: %r' % (ar.exception if ar.ready() else 'pending'))
+      self.fail('reopen-failed', 'pool Open() after %s did not succeed: %r' % (what, ar.exception if ar.ready() else 'pending'))
     self.flags.add('reopened')
+    self.pool_closed_expected = False
     n1 = len(self.reqs)
     for _ in range(self.cfg['max']):
       self.submit(None)
@@ -478,11 +522,23 @@ class Run(object):
     self.raise_pending()
     stuck = [r.id for r in self.reqs[n1:] if r.conn is None]
     if stuck:
-      self.fail('capacity-leaked-after-reopen', 'after Close() and Open() a burst of %d requests left %r without a connection (%d connections in existence)' % (
-          self.cfg['max'], stuck, len(self.live_conns())))
-    if len(self.live_conns()) > self.cfg['max']:
-      self.fail('too-many-connections', '%d connections in existence after the re-open, max_watermark %d' % (len(self.live_conns()), self.cfg['max']))
-
+      self.fail('capacity-leaked-after-reopen', 'after %s a burst of %d requests left %r without a connection (%d connections in existence)' % (
+          what, self.cfg['max'], stuck, len(self.live_conns())))
+    # one more than the pool allows: it waits (or is turned away), it does not get a connection of its own
+    self.submit(None)
+    advance(0.2)
+    self.invariants()
+    extra = self.reqs[-1]
+    if extra.conn is not None:
+      self.fail('too-many-connections', 'after %s request %d reached %r while %d others are in flight, max_watermark %d' % (
+          what, extra.id, extra.conn, self.cfg['max'], self.cfg['max']))
+    self.drain()
+    advance(0.3)
+    self.invariants()
+    live = self.live_conns()
+    if len(live) > self.cfg['min']:
+      self.fail('retained-above-min', '%d connections retained after traffic stopped in the pool\'s second life, min_watermark %d' % (
+          len(live), self.cfg['min']))
 
 def execute(plan):
   with World(seed=0):
